@@ -4,9 +4,9 @@ package main
 
 import (
 	"fmt"
-	"os"
 	"go/ast"
 	"go/types"
+	"os"
 	"sort"
 	"strings"
 
@@ -75,6 +75,11 @@ func (g *gen) execCall(instr ssa.Instruction, c *ssa.CallCommon, v ssa.Value, st
 	}
 	g.siteAsserts(instr, c, st)
 	g.countCall(c, st)
+	if len(g.resultNamed) > 0 {
+		if n := calledName(c); g.resultNamed[n] != nil {
+			defer g.recordResult(n, v, st)
+		}
+	}
 	sig := c.Signature()
 	callee := c.StaticCallee()
 	var bindings []ssa.Value
@@ -126,7 +131,7 @@ func (g *gen) execCall(instr ssa.Instruction, c *ssa.CallCommon, v ssa.Value, st
 		}
 	}
 	if c.IsInvoke() {
-		if con := g.P.getContract("invoke "+g.P.relType(c.Value.Type())+"."+c.Method.Name()); con != nil {
+		if con := g.P.getContract("invoke " + g.P.relType(c.Value.Type()) + "." + c.Method.Name()); con != nil {
 			res := g.contractCallGeneric(instr, con, c.Method.Type().(*types.Signature), append([]string{g.val(st, c.Value)}, args...), append([]types.Type{c.Value.Type()}, paramTypes(c.Method.Type().(*types.Signature))...), paramNames(c.Method.Type().(*types.Signature), "recv"), st, name)
 			g.setResults(v, res)
 			g.afterCall(instr, sig, v, st)
@@ -146,7 +151,7 @@ func (g *gen) execCall(instr ssa.Instruction, c *ssa.CallCommon, v ssa.Value, st
 			fsig, _ = c.Value.Type().Underlying().(*types.Signature)
 		}
 		if ftName != "" && fsig != nil {
-			if con := g.P.getContract("functype "+ftName); con != nil {
+			if con := g.P.getContract("functype " + ftName); con != nil {
 				var names []string
 				for i := 0; i < fsig.Params().Len(); i++ {
 					names = append(names, fsig.Params().At(i).Name())
@@ -1049,6 +1054,11 @@ func (g *gen) callEffects(c *ssa.CallCommon, ef *effects) {
 			ef.strong["GHOST.calls."+n] = true
 		}
 	}
+	if len(g.resultNamed) > 0 {
+		if n := calledName(c); g.resultNamed[n] != nil {
+			ef.strong["GHOST.result."+n] = true
+		}
+	}
 	if b, ok := c.Value.(*ssa.Builtin); ok {
 		switch b.Name() {
 		case "append":
@@ -1104,7 +1114,7 @@ func (g *gen) callEffects(c *ssa.CallCommon, ef *effects) {
 	if callee != nil {
 		con = g.P.contractFor(callee)
 	} else if c.IsInvoke() {
-		con = g.P.getContract("invoke "+g.P.relType(c.Value.Type())+"."+c.Method.Name())
+		con = g.P.getContract("invoke " + g.P.relType(c.Value.Type()) + "." + c.Method.Name())
 	}
 	if con != nil {
 		ef.allocates = true
@@ -1201,7 +1211,7 @@ func (g *gen) execReturn(x *ssa.Return, st *state) {
 		for _, r := range x.Results {
 			rs = append(rs, g.exprText(r))
 		}
-		retSuffix = " @return " + strings.Join(rs, ", ")
+		retSuffix = " @return " + strings.Join(rs, ", ") + g.retTag
 	}
 	if g.con != nil && g.opts.functional && !g.con.flag("trusted") {
 		for i, en := range g.con.Ensures {
